@@ -394,6 +394,23 @@ func main() {
 		a.Op(PRINT).Op(RET)
 		record("hand_farjfalse.bcb", "hand-assembled", x.desc, x.bytes(), true, "jfalse_0x8001")
 	}
+	{
+		x := newFile("nopos.bcl", "a file whose positions and line tables are empty (their counts are independent of the code length)")
+		a := &x.a
+		a.Op(CONST, x.k(bcfmt.Str("no positions"))).Op(PRINT).Op(ONE).Op(PRINT).Op(RET)
+		x.f.Code = a.Code
+		data := x.f.Encode() // positions left empty on purpose
+		record("hand_nopositions.bcb", "hand-assembled", x.desc, data, true, "positions_count_independent")
+	}
+	{
+		x := newFile("halfpos.bcl", "fewer positions than code bytes, more line-table entries than lines of any source")
+		a := &x.a
+		a.Op(CONST, x.k(bcfmt.Str("half"))).Op(PRINT).Op(RET)
+		x.f.Code = a.Code
+		x.f.Positions = []uint64{1, 1}
+		x.f.Lfs = []uint64{0, 1, 2, 3, 300, 70000}
+		record("hand_halfpositions.bcb", "hand-assembled", x.desc, x.f.Encode(), true, "positions_count_independent")
+	}
 	for _, src := range []struct{ file, text string }{
 		{"big_and.bcb", "print false and 1" + strings.Repeat("+1", 17000) + "\nprint 1 and 2" + strings.Repeat("+1", 16500) + "\n"},
 		{"big_or.bcb", "print 7 or 1" + strings.Repeat("+1", 17000) + "\nprint 0 or 2" + strings.Repeat("+1", 16400) + "\n"},
